@@ -119,17 +119,60 @@
                                          its table (sound), and for every well-formed table whose encoding passes the check the
                                          round trip holds - WITH split events.  The torus and the discs with holes of the
                                          Examples pass the check (so does every no-event Example).
-    NOT proved - the ENCODER half of the general theorem, exactly this lemma:
-        eb_encode c2v opp nv niso ndeg = EOk o  ->  class_script c2v opp nf o = true     (for tables with C13's invariants)
-    i.e. (a) o_events = the events grouped by source symbol - PROVED, C01_ebsim_events_bookkeeping; (b) an event (src, spl, edge) is
-    recorded exactly when the left corner pushed at the S symbol spl is popped dead, at the E / L / R symbol src that visits
-    that corner's face, with Opposite(Previous(S corner)) = Next / Previous(src corner) for RIGHT / LEFT - the encoder
-    invariant [KI] / [KO] of EbSimEnc_proofs has the `no event => no dead pop` direction only; (c) [tops_stackM] with dead
-    pops: the decoder stack [topsE] = the encoder's stack entries that are still alive when popped. *)
+      C01_ebsim_small_step / C01_ebsim_events_characterized   (ENCODER side with events, ONE run; Proofs/EbTraceStep_proofs.v,
+                                         EbTraceInv_proofs.v, EbSimEvEnc_proofs.v)
+                                         proved: the FULL small-step relation between consecutive configurations of a run
+                                         ([SSTEP]: what one loop iteration does to visited_faces_, the symbols, the stack, the
+                                         recorded events, face_to_split_symbol_map_; which entries are popped between strips),
+                                         the run invariants along the trace (J1 .. J5), and from them the recorded events
+                                         EXACTLY: (src, spl, edge) is in o_events iff src is an E / L / R symbol, spl < src an
+                                         S symbol, and the right (edge 1) / left (edge 0) neighbour corner of src's corner lies
+                                         in the face of spl's corner
+      C01_ebsim_event_iff_dead / C01_ebsim_stack_with_events   (ONE run)
+                                         proved: a split event is recorded for the S symbol sg  <=>  the left corner pushed at sg
+                                         is NOT one of the processing corners (its face is entered from elsewhere, the entry is
+                                         popped dead); and the STACK CORRESPONDENCE with events along the trace: the faces of
+                                         the decoder's stack [topsE] = the current face followed by the encoder's entries below
+                                         its top that ARE processing corners (the dead entries are the ones the decoder pops at
+                                         the S with a registered split corner)
+      C01_ebsim_roundtrip_events_1 / C01_ebsim_roundtrip_events_1_ct
+                                         proved: THE ROUND TRIP WITH SPLIT EVENTS ON THE CLASS "one start-face bit"
+                                         (length (o_bits o) = 1: ONE component; any symbols, ANY split events - handles, holes),
+                                         every remove_invalid_vertices: every encoding of the class satisfies the script
+                                         conditions of C01_ebsim_dec_roundtrip_script_events.  The tori, the discs with holes and
+                                         the torus with a hole of the Examples are in this class.  `_ct`: against eb_decode_of
+                                         for CornerTable::Create tables, premises ONLY the size bound and guard G3 (those of
+                                         C09_ebenc_stream_never_rejected_by_guards_partial)
+      C01_ebsim_trace_events_1           proved: the simulation ALONG THE TRACE with events ([simE]): at configuration i the
+                                         decoder run on the last k = ns - i symbols (with the whole event list) is in SIM, its
+                                         stack = tip corners of [topsE k] = current face + the encoder's alive entries, its pending
+                                         events = those of older symbols [REM k], its registered split corners [SPL k]
+      C01_ebsim_verts_fit_script / C01_ebsim_verts_fit_events_1 / C01_ebsim_events_count_1
+                                         proved: the numeric decoder guards are consequences also WITH events: cntv <= vertices +
+                                         splits for every encoding satisfying the script conditions (an S with a registered split
+                                         corner also invalidates one decoder vertex; same counting as without events), hence for
+                                         the class "one start-face bit" and for the checked class of any number of runs
+                                         (C01_ebsim_roundtrip_events_checked_ct2); and |events| <= #symbols in the one-bit class (no event is recorded
+                                         twice, J6; every S symbol has at most ONE event: both would be glued to its left edge)
+    NOT proved - the general theorem C01_ebsim_roundtrip (split events AND several runs).  Missing is exactly:
+        eb_encode c2v opp nv niso ndeg = EOk o  ->  2 <= length (o_bits o)  ->  o_events o <> []  ->
+        (forall k, k < length (o_syms o) -> script_atE c2v opp nf (o_pcc o) (rev (o_syms o)) (EVseg_of o) k) /\
+        start_ok_g c2v opp nf (o_pcc o) (rev (o_syms o)) (topsE (rev (o_syms o)) (EVseg_of o) (length (o_syms o))) (o_bits o)
+    (for one bit: script_all / start_all of Proofs/EbSimEvEnc_proofs.v; without events: noevent_script of EbSim_proofs.v).  The
+    decoder half, the events bookkeeping, the C / E / R / L clauses ([efact], all runs) are there; what is proved for ONE call
+    of EncodeConnectivityFromCorner only is the trace analysis with events: J1 .. J5, [J4] (the entries below the top are left
+    corners of S symbols), [stack_future], [dead_not_alive] of EbTraceInv_proofs.v and [TS], [ev_not_alive], [not_alive_ev] of
+    EbSimEvEnc_proofs.v assume the first configuration has no symbol / event / face_to_split entry.  For several runs they are
+    needed per run with an offset (the symbols, events and map entries of the earlier runs present), plus the cross-run fact
+    that CheckAndStoreTopologySplitEvent never finds a face of an EARLIER run (all three neighbours of an S face lie in its own
+    run: gate = previous face, right = next face, left = alive or visited inside the run by [not_alive_ev]), and [topsE] carries
+    one entry per later run below the current run's entries (as [tops_stackM] does without events).
+    (cntv <= vertices + splits is already derived from the script conditions for any number of runs: C01_ebsim_verts_fit_script.) *)
 From Coq Require Import ZArith List Bool.
 From Draco Require Import Model.CornerTable Model.EbEncoder Model.EbTrace Proofs.CornerTable_proofs Proofs.EbEncoder_proofs.
 From Draco Require Import Proofs.EbTrace_proofs Proofs.EbSimEnc_proofs Proofs.EbSimDec_proofs Proofs.EbSimS_proofs Proofs.EbSimLoop_proofs Proofs.EbSim_proofs.
 From Draco Require Import Proofs.EbSimEv_proofs Proofs.EbSimEvChk_proofs Proofs.EbSimCount_proofs.
+From Draco Require Import Proofs.EbTraceStep_proofs Proofs.EbTraceInv_proofs Proofs.EbSimEvEnc_proofs.
 From Draco Require Model.Edgebreaker Proofs.Edgebreaker_proofs Proofs.Edgebreaker_fan_proofs Proofs.Edgebreaker_compact_proofs
   Proofs.EbSimCompact_proofs.
 Import ListNotations.
@@ -689,6 +732,109 @@ Theorem C01_ebsim_events_bookkeeping : forall c2v opp nf nv niso ndeg o,
 Proof. exact events_bookkeeping. Qed.
 Print Assumptions C01_ebsim_events_bookkeeping.
 
+(** ** split events: the encoder side, one run *)
+Theorem C01_ebsim_small_step : forall c2v opp hid s c s' tr', from_corner_tr c2v opp hid s (Some c) [] = EOk (s', tr') ->
+  length tr' <= NF c2v ->
+  gadj (SSTEP opp) tr' /\
+  (tr' = [] \/ exists pre cf0, tr' = pre ++ [cf0] /\ cf_st cf0 = with_stack s [Some c] /\ cf_corner cf0 = c) /\
+  (tr' = [] \/ POSTS opp (NF c2v) tr' s').
+Proof. exact from_corner_tr_sstep. Qed.
+Print Assumptions C01_ebsim_small_step.
+
+Theorem C01_ebsim_events_characterized : forall c2v opp nf nv niso ndeg o tr,
+  length c2v = 3 * nf -> opp_ok c2v opp -> (forall c, c < 3 * nf -> vtx c2v c < nv) -> one_fan c2v opp ->
+  eb_encode_tr c2v opp nv niso ndeg = EOk (o, tr) -> length (o_bits o) = 1 ->
+  let ns := length (o_syms o) in let Q := o_pcc o in
+  forall src spl ed,
+  In (src, spl, ed) (o_events o) <->
+  exists m sg x, src = Z.of_nat m /\ spl = Z.of_nat sg /\ sg < m /\ m < ns /\ nth sg (o_syms o) 0%Z = 1%Z /\
+    nth (ns - 1 - sg) Q 0 / 3 = x / 3 /\
+    ((ed = 1%Z /\ (nth m (o_syms o) 0%Z = 5%Z \/ nth m (o_syms o) 0%Z = 7%Z) /\ oat opp (next_c (nth (ns - 1 - m) Q 0)) = Some x) \/
+     (ed = 0%Z /\ (nth m (o_syms o) 0%Z = 3%Z \/ nth m (o_syms o) 0%Z = 7%Z) /\ oat opp (prev_c (nth (ns - 1 - m) Q 0)) = Some x)).
+Proof. exact events_characterized. Qed.
+Print Assumptions C01_ebsim_events_characterized.
+
+Theorem C01_ebsim_event_iff_dead : forall c2v opp nf nv niso ndeg o tr,
+  length c2v = 3 * nf -> opp_ok c2v opp -> (forall c, c < 3 * nf -> vtx c2v c < nv) -> one_fan c2v opp ->
+  eb_encode_tr c2v opp nv niso ndeg = EOk (o, tr) -> length (o_bits o) = 1 ->
+  let ns := length (o_syms o) in let Q := o_pcc o in
+  forall sg l, sg < ns -> nth sg (o_syms o) 0%Z = 1%Z -> oat opp (prev_c (nth (ns - 1 - sg) Q 0)) = Some l ->
+  ((exists src ed, In (src, Z.of_nat sg, ed) (o_events o)) <-> ~ In l (firstn ns Q)).
+Proof. exact event_iff_dead. Qed.
+Print Assumptions C01_ebsim_event_iff_dead.
+
+Theorem C01_ebsim_stack_with_events : forall c2v opp nf nv niso ndeg o tr,
+  length c2v = 3 * nf -> opp_ok c2v opp -> (forall c, c < 3 * nf -> vtx c2v c < nv) -> one_fan c2v opp ->
+  eb_encode_tr c2v opp nv niso ndeg = EOk (o, tr) -> length (o_bits o) = 1 ->
+  let ns := length (o_syms o) in let Q := o_pcc o in
+  forall i cf, nth_error tr i = Some cf ->
+  map (fun j => nth j Q 0) (topsE (rev (o_syms o)) (EVseg_of o) (ns - i)) =
+  cf_corner cf :: map the (filter (alive_e tr) (tl (stack (cf_st cf)))).
+Proof. exact stack_events. Qed.
+Print Assumptions C01_ebsim_stack_with_events.
+
+(** ** THE ROUND TRIP WITH SPLIT EVENTS, one start face *)
+Theorem C01_ebsim_roundtrip_events_1 : forall c2v opp nf nv niso ndeg o rm maxv,
+  length c2v = 3 * nf -> opp_ok c2v opp -> (forall c, c < 3 * nf -> vtx c2v c < nv) -> one_fan c2v opp ->
+  eb_encode c2v opp nv niso ndeg = EOk o -> length (o_bits o) = 1 ->
+  (Z.of_nat (length (o_syms o)) < 2147483648)%Z -> (cntv (rev (o_syms o)) <= maxv)%Z ->
+  let F := Z.of_nat (length (o_pcc o)) in
+  exists n s, Edgebreaker.eb_core (3 * F) maxv F rm (rev (o_syms o)) (o_events o) (Edgebreaker.bits_of_list (o_bits o)) = Edgebreaker.Ok (n, s) /\
+              eb_iso c2v opp (o_pcc o) (Edgebreaker.c2v s) (Edgebreaker.copp s).
+Proof. exact ebsim_roundtrip_events_1_enc. Qed.
+Print Assumptions C01_ebsim_roundtrip_events_1.
+
+Theorem C01_ebsim_roundtrip_events_1_ct : forall faces t o rm, ct_create faces = Some t -> eb_encode_ct t = EOk o ->
+  length (o_bits o) = 1 ->
+  (Z.of_nat (3 * length faces + length (ct_vcorn t)) < 2147483648)%Z ->
+  ((3 * o_nfaces o) / 2 <= (o_nverts o * (o_nverts o - 1)) / 2)%Z ->
+  exists n s, eb_decode_of o rm = Edgebreaker.Ok (n, s) /\ eb_iso (ct_c2v t) (ct_opp t) (o_pcc o) (Edgebreaker.c2v s) (Edgebreaker.copp s).
+Proof. exact ebsim_roundtrip_events_1_ct2. Qed.
+Print Assumptions C01_ebsim_roundtrip_events_1_ct.
+
+Theorem C01_ebsim_trace_events_1 : forall c2v opp nf nv niso ndeg o tr,
+  length c2v = 3 * nf -> opp_ok c2v opp -> (forall c, c < 3 * nf -> vtx c2v c < nv) -> one_fan c2v opp ->
+  eb_encode_tr c2v opp nv niso ndeg = EOk (o, tr) -> length (o_bits o) = 1 ->
+  forall rm maxv, (Z.of_nat (length (o_syms o)) < 2147483648)%Z -> (cntv (rev (o_syms o)) <= maxv)%Z ->
+  let ns := length (o_syms o) in
+  let NC := (3 * Z.of_nat (length (o_pcc o)))%Z in
+  length tr = ns /\
+  forall i cf, nth_error tr i = Some cf ->
+    length (syms (cf_st cf)) = i /\
+    exists d, Edgebreaker.sym_loop NC maxv rm (Z.of_nat ns) (firstn (ns - i) (rev (o_syms o))) 0 (Edgebreaker.init_st (o_events o)) = Edgebreaker.Ok d /\
+              simE c2v opp o tr NC maxv cf d.
+Proof. exact ebsim_trace_events_1. Qed.
+Print Assumptions C01_ebsim_trace_events_1.
+
+Theorem C01_ebsim_verts_fit_script : forall faces t o, ct_create faces = Some t -> eb_encode_ct t = EOk o ->
+  (Z.of_nat (length (o_syms o)) < 2147483648)%Z ->
+  (forall j, j < length (o_syms o) -> script_atE (ct_c2v t) (ct_opp t) (length faces) (o_pcc o) (rev (o_syms o)) (EVseg_of o) j) ->
+  start_ok_g (ct_c2v t) (ct_opp t) (length faces) (o_pcc o) (rev (o_syms o))
+             (topsE (rev (o_syms o)) (EVseg_of o) (length (o_syms o))) (o_bits o) ->
+  verts_fit o.
+Proof. exact verts_fit_script. Qed.
+Print Assumptions C01_ebsim_verts_fit_script.
+
+Theorem C01_ebsim_roundtrip_events_checked_ct2 : forall faces t o rm, ct_create faces = Some t -> eb_encode_ct t = EOk o ->
+  class_script (ct_c2v t) (ct_opp t) (length faces) o = true ->
+  (Z.of_nat (3 * length faces + length (ct_vcorn t)) < 2147483648)%Z ->
+  ((3 * o_nfaces o) / 2 <= (o_nverts o * (o_nverts o - 1)) / 2)%Z ->
+  (Z.of_nat (length (o_events o)) <= o_nfaces o)%Z ->
+  exists n s, eb_decode_of o rm = Edgebreaker.Ok (n, s) /\ eb_iso (ct_c2v t) (ct_opp t) (o_pcc o) (Edgebreaker.c2v s) (Edgebreaker.copp s).
+Proof. exact ebsim_roundtrip_checked_ct'. Qed.
+Print Assumptions C01_ebsim_roundtrip_events_checked_ct2.
+
+Theorem C01_ebsim_verts_fit_events_1 : forall faces t o, ct_create faces = Some t -> eb_encode_ct t = EOk o -> length (o_bits o) = 1 ->
+  (Z.of_nat (length (o_syms o)) < 2147483648)%Z -> verts_fit o.
+Proof. exact verts_fit_events_1. Qed.
+Print Assumptions C01_ebsim_verts_fit_events_1.
+
+Theorem C01_ebsim_events_count_1 : forall c2v opp nf nv niso ndeg o tr,
+  length c2v = 3 * nf -> opp_ok c2v opp -> (forall c, c < 3 * nf -> vtx c2v c < nv) -> one_fan c2v opp ->
+  eb_encode_tr c2v opp nv niso ndeg = EOk (o, tr) -> length (o_bits o) = 1 -> length (o_events o) <= length (o_syms o).
+Proof. exact events_count_1. Qed.
+Print Assumptions C01_ebsim_events_count_1.
+
 Theorem C01_ebsim_ndp_check_sound : forall opp tr, ndp_b opp tr = true -> ndp opp tr.
 Proof. exact ndp_b_sound. Qed.
 Print Assumptions C01_ebsim_ndp_check_sound.
@@ -848,4 +994,28 @@ Proof. vm_compute. split; reflexivity. Qed.
 Example ebsim_events_components :
   script_info (grid 3 3 true ++ shift_faces 100 (firstn 8 (grid 3 3 false) ++ skipn 10 (grid 3 3 false))) = Some (true, 3, 2) /\
   script_info (skipn 2 (grid 4 4 true)) = Some (true, 2, 1).
+Proof. vm_compute. split; reflexivity. Qed.
+
+(** the class of [C01_ebsim_roundtrip_events_1_ct] (one start-face bit, ANY split events) with its premises: both tori, the
+    disc with a hole, the disc with two holes and the torus with a hole are in it (events, bits, and the numeric conditions:
+    size, G3 - the premises - and |events| <= faces, cntv <= vertices + splits, which are proved consequences) *)
+Definition events1_info faces :=
+  match ct_create faces with
+  | Some t => match eb_encode_ct t with
+              | EOk o => Some (length (o_events o), length (o_bits o) =? 1,
+                               (Z.of_nat (3 * length faces + length (ct_vcorn t)) <? 2147483648)%Z &&
+                               ((3 * o_nfaces o) / 2 <=? (o_nverts o * (o_nverts o - 1)) / 2)%Z &&
+                               (Z.of_nat (length (o_events o)) <=? o_nfaces o)%Z &&
+                               (cntv (rev (o_syms o)) <=? o_nverts o + o_nsplit o)%Z)
+              | _ => None
+              end
+  | None => None
+  end.
+Example ebsim_events1_torus : events1_info (grid 3 3 true) = Some (2, true, true) /\ events1_info (grid 4 5 true) = Some (2, true, true).
+Proof. vm_compute. split; reflexivity. Qed.
+Example ebsim_events1_grid_with_hole : events1_info (firstn 8 (grid 3 3 false) ++ skipn 10 (grid 3 3 false)) = Some (1, true, true).
+Proof. vm_compute. reflexivity. Qed.
+Example ebsim_events1_two_holes_and_torus_with_hole :
+  events1_info (firstn 13 (grid 5 5 false) ++ skipn 15 (firstn 30 (grid 5 5 false)) ++ skipn 33 (grid 5 5 false)) = Some (2, true, true) /\
+  events1_info (skipn 2 (grid 4 4 true)) = Some (2, true, true).
 Proof. vm_compute. split; reflexivity. Qed.
